@@ -139,7 +139,7 @@ def _run_shard_pyopt(args):
         # module whose mpz is int makes that path executable here (the sandbox has neither gmpy nor gmpy2)
         pre = "import sys,types\n_g=types.ModuleType('gmpy'); _g.mpz=int; sys.modules['gmpy']=_g\n"
     code = (pre + "import json,sys\nfrom vf import core\nargs=json.loads(sys.stdin.read())\n"
-            "r=core._run_shard(tuple(args))\nr['nontrivial']=sorted(r['nontrivial'])\nr['assertions_stripped']=not __debug__\nr['bytes_warning']=sys.flags.bytes_warning\nr['gmpy_path']=bool(getattr(__import__('ecdsa.numbertheory').numbertheory,'GMPY',False))\nsys.stdout.write('\\nVFRESULT'+json.dumps(r))\n")
+            "r=core._run_shard(tuple(args))\nr['nontrivial']=sorted(r['nontrivial'])\nr['assertions_stripped']=not __debug__\nr['bytes_warning']=sys.flags.bytes_warning\nr['dev_mode']=bool(sys.flags.dev_mode)\nr['gmpy_path']=bool(getattr(__import__('ecdsa.numbertheory').numbertheory,'GMPY',False))\nsys.stdout.write('\\nVFRESULT'+json.dumps(r))\n")
     try:
         mode = kwargs["_pyopt"]
         toks = {"opt"} if mode is True else set(str(mode).split("+"))
@@ -149,6 +149,8 @@ def _run_shard_pyopt(args):
             argv = [sys.executable, "-W", "error"]                        # every warning is an exception (as under pytest -W error): a non-deprecated path must not warn
         if "opt" in toks:
             argv.insert(1, "-OO" if "hashseed" in toks else "-O")       # assert statements (and, with -OO, docstrings) stripped
+        if "dev" in toks:
+            argv[1:1] = ["-X", "dev"]                                      # Python Development Mode (also PYTHONDEVMODE=1): codec / error-handler names are checked on every call, debug hooks are on
         if "bb" in toks:
             argv.insert(1, "-bb")                                          # str(bytes) / bytes-vs-str comparison raise BytesWarning
         env.pop("VERIF_FORCE_PYOPT", None)
@@ -170,13 +172,15 @@ def _run_shard_pyopt(args):
     r["nontrivial"] = set(r["nontrivial"])
     if "opt" in toks and not r.get("assertions_stripped"):
         r["crash"] = "child did not run with -O"
+    if "dev" in toks and not r.get("dev_mode"):
+        r["crash"] = "child did not run in development mode"
     if "bb" in toks and r.get("bytes_warning") != 2:
         r["crash"] = "child did not run with -bb"
     if "fakegmpy" in toks and not r.get("gmpy_path"):
         r["crash"] = "child did not take the gmpy code path"
     r["classes"] = {"pyopt:" + k: v for k, v in r["classes"].items()}
     r["nontrivial"] = {"pyopt:" + k for k in r["nontrivial"]}
-    tag = "[python %s] " % " ".join(x for x in argv[1:] if x in ("-O", "-OO", "-bb", "error")).replace("error", "-W error") if (toks & {"opt", "bb", "werror"}) else ("[gmpy code path, mpz = int] " if "fakegmpy" in toks else ("[PYTHONINTMAXSTRDIGITS=640] " if "maxdigits" in toks else "[other PYTHONHASHSEED] "))
+    tag = "[python %s] " % " ".join(x for x in argv[1:] if x in ("-O", "-OO", "-bb", "error")).replace("error", "-W error") if (toks & {"opt", "bb", "werror"}) else ("[gmpy code path, mpz = int] " if "fakegmpy" in toks else ("[PYTHONINTMAXSTRDIGITS=640] " if "maxdigits" in toks else "[python -X dev] " if "dev" in toks else "[other PYTHONHASHSEED] "))
     for v in r["violations"]:
         v["what"] = tag + v["what"]
     return r
